@@ -294,7 +294,7 @@ def ex_repeat2(c):
 # ---------------------------------------------------------------------------------------------- C11
 def ex_truncate(c):
     off = xoff(c)
-    x, y = xarr(c["x"], "array", off), arr(c["y"])
+    x, y = xarr(c["x"], c.get("container", "array"), off), arr(c["y"], c.get("container", "array"))
     l, r = fl(c["left"]) + (0.0 if c["lr"] else off), fl(c["right"]) + (0.0 if c["rr"] else off)
     oc, o = guarded(lambda: proc.truncate(x, y, l, r, c["lr"], c["rr"]))
     woc, w, unch = wrun(x, y, lambda w: w.truncate_by_value(l, r, x_left_as_ratio=c["lr"], x_right_as_ratio=c["rr"]))
@@ -306,7 +306,7 @@ def ex_truncate(c):
 
 def ex_slice_value(c):
     off = xoff(c)
-    x, y = xarr(c["x"], "array", off), arr(c["y"])
+    x, y = xarr(c["x"], c.get("container", "array"), off), arr(c["y"], c.get("container", "array"))
     w = Weaver(x, y)
     kw = {}
     if c["start"] != NONE:
@@ -323,7 +323,7 @@ def ex_slice_value(c):
 
 
 def ex_slice_index(c):
-    x, y = arr(c["x"]), arr(c["y"])
+    x, y = arr(c["x"], c.get("container", "array")), arr(c["y"], c.get("container", "array"))
     w = Weaver(x, y)
     stop = None if c["stop"] == NONEINT else c["stop"]
     oc, o = guarded(lambda: w.slice_by_index(c["start"], stop, c["step"]))
@@ -333,7 +333,7 @@ def ex_slice_index(c):
 
 
 def ex_truncate_index(c):
-    x, y = arr(c["x"]), arr(c["y"])
+    x, y = arr(c["x"], c.get("container", "array")), arr(c["y"], c.get("container", "array"))
     stop = None if c["stop"] == NONEINT else c["stop"]
     woc, w, unch = wrun(x, y, lambda w: w.truncate_by_index(c["start"], stop))
     e = dict(c)
@@ -372,7 +372,7 @@ def ex_trend(c):
 
 
 def ex_linear_trend(c):
-    x, y = arr(c["x"]), arr(c["y"])
+    x, y = arr(c["x"], c.get("container", "array")), arr(c["y"], c.get("container", "array"))
     oc, o = guarded(lambda: proc.linear_trend(np.array(x, copy=True), np.array(y, copy=True), fl(c["a"]), c["normalized"]))
     e = dict(c)
     e.update(outcome=oc, outx=vec(o[0]) if oc == "ok" else [], outy=vec(o[1]) if oc == "ok" else [])
@@ -380,7 +380,7 @@ def ex_linear_trend(c):
 
 
 def ex_normalize(c):
-    a, other = arr(c["a"]), arr(c["other"])
+    a, other = arr(c["a"], c.get("container", "array")), arr(c["other"], c.get("container", "array"))
     lo, hi = fl(c["lo"]), fl(c["hi"])
     if c["lo"] == [0, 1] and c["hi"] == [1, 1] and len(c["a"]) % 2 == 0:      # documented default range left implicit
         oc, o = guarded(lambda: proc.normalize(a))
@@ -412,7 +412,7 @@ def ex_shiftscale(c):
 # ---------------------------------------------------------------------------------------------- C13
 def ex_interp(c):
     off = xoff(c)
-    x, y, q = xarr(c["x"], c.get("xcontainer", "array"), off), arr(c["y"]), xarr(c["q"], c.get("qcontainer", "array"), off)
+    x, y, q = xarr(c["x"], c.get("xcontainer", "array"), off), arr(c["y"], c.get("ycontainer", "array")), xarr(c["q"], c.get("qcontainer", "array"), off)
     kw = {} if c["left"] == NONE else {"left": fl(c["left"])}
     coc, co = guarded(lambda: proc.interpolate(x, y, q, method="constant", **kw))
     loc, lo = guarded(lambda: proc.interpolate(x, y, q) if len(c["x"]) % 2 == 0 else proc.interpolate(x, y, q, method="linear"))
@@ -1086,7 +1086,7 @@ def ex_noise(c):
 # ---------------------------------------------------------------------------------------------- C16 smoothing
 def ex_smooth(c):
     import warnings as _w
-    x, y = arr(c["x"]), arr(c["y"])
+    x, y = arr(c["x"], c.get("container", "array")), arr(c["y"], c.get("container", "array"))
     s = c["s_f"]
     warned = [False]
 
